@@ -74,7 +74,7 @@ def regen():
     return rc == 0, out
 
 
-def make(targets, timeout=1500):
+def make(targets, timeout=900):
     cmd = "ulimit -s unlimited 2>/dev/null; make -j16 " + " ".join(targets)
     rc, out, dt = sh(["bash", "-c", cmd], timeout, cwd=COQ)
     return rc == 0, out, dt
